@@ -10,7 +10,7 @@ Oracle : windows_k = items[k*s : k*s+w] for k*s < n; windows are created in orde
 """
 import random
 
-from ..common import Check, Outcome, bootstrap, interleave, with_prelude, prelude_tags, shrink_prelude, PRELUDE_TAGS
+from ..common import Check, Outcome, bootstrap, interleave, with_prelude, prelude_tags, shrink_prelude, PRELUDE_TAGS, PRELUDE_RULE
 from .. import windows
 
 rs = bootstrap()
@@ -35,6 +35,7 @@ class C05(Check):
             '(wraps the ceil(w/s) slot ring several times); then random w,s <= 12 (every 75th case windows of 257-1000 items) under group_by with interleaved keys (int / tuple / string keys), nested in roll '
             '(w != s and w == s variants: key slots are reused by successive outer windows), in split, in time_split, group_by>roll and roll>group_by. '
             'non-trivial = some key lifetime has >= 2 windows; distinct = hash of the case')
+    RULE += PRELUDE_RULE
     ASSUMPTIONS = ['the order in which ONE source item is delivered to several simultaneously open windows is not constrained (the suite pins slot order, the property does not)']
     ANCHORS = ['rxsci/data/roll.py', 'rxsci/operators/multiplex.py']
     REQUIRED_TAGS = ['top', 'group', 'roll', 'roll_eq', 'split', 'w<s', 'w=s', 'w>s', 'w%s!=0', 'n=0', 'n<w', 'ring-wrapped', 'w>256'] + PRELUDE_TAGS
